@@ -271,3 +271,16 @@ Theorem prop_of_model_C04 : forall i conf ops, dec_in i = Some (conf, ops) -> pr
 Proof.
   intros i conf ops H. unfold prop_C04, run_C04. rewrite H, as_LZ_vLZ, <- wproj_init. apply wrun_spec.
 Qed.
+
+Definition wf_C04 (i : val) : bool := match dec_in i with Some _ => true | None => false end.
+Theorem central_C04 : forall i, wf_C04 i = true -> kf_C04 i = 0 -> prop_C04 i (run_C04 i) = true.
+Proof.
+  intros i H _. unfold wf_C04 in H. destruct (dec_in i) as [[conf ops]|] eqn:E; [|discriminate].
+  exact (prop_of_model_C04 i conf ops E).
+Qed.
+Definition sample_C04 : val :=
+  VL [VL [VL [VZ 0; VZ 2]; VL [VZ 1; VZ 1]; VL [VZ 2; VZ 0]];
+      VL [VL [VZ 1; VZ 0; VZ 4]; VL [VZ 1; VZ 1; VZ 2]; VL [VZ 0; VZ 4]; VL [VZ 2; VZ 0; VZ 0]; VL [VZ 0; VZ 3]; VL [VZ 0; VZ 4]];
+      VZ 12345].
+Lemma sample_C04_wf : wf_C04 sample_C04 = true.
+Proof. reflexivity. Qed.
